@@ -12,7 +12,7 @@ CFG = {
     "axioms": [],
     "trusted": NODE_TB + ["hypothesis vrec_unchained (unchained digests do not contain the previous signature: crypto/schemes.go DigestBeacon) is a Section hypothesis visible in the theorem statements"],
     "assumptions": ["pairing arithmetic, Lagrange interpolation in Recover and SHA-256 are not modelled (oracles)", "serving side: PublicRand's exact-round rule is modelled in Model/Serve.v; gRPC/HTTP marshalling is not modelled"],
-    "level_text": "C04_accept: in every state every partial for a round beyond next_round(clock) is refused and changes nothing; C04_emissions_not_early_partial: for EVERY event list in which the clock moves forward and ticks are not from the clock's future, every partial the node releases (tick, catch-up sleeper, after restart, across transitions) is for a round <= the current round of its own clock, under the stated premise that the stored head is not ahead of the own clock when a tick is handled; C04_round_le_current_is_timely links rounds to scheduled times (C16); C04_unconditional_refuted shows the premise is needed (a threshold of fast/corrupted peers), recorded as an observation. Tied to the real Handler by the node engine, which stamps every emission with the node's clock; an independent monitor checks time_of_round(r) <= clock for every emission. C04_net_no_future_round: in the abstract network of Proofs/NetTime.v (adversarial partials for any round at any time from fewer than a threshold of corrupted or fast members, honest partials under the node-local rule, Recover needing t distinct signers) no beacon of a future round ever exists and no honest member signs early -- this discharges the carve-out premise at the system level. C04_system_no_future_round (Model/Net.v: any number of honest nodes each running the node-local step that is compared with the real Handler, a wire, an adversary owning the network and fewer than a threshold of share indices, symbolic unforgeability as admissibility of its events): in EVERY reachable state no beacon of a future round exists anywhere, no honest chain holds one, no valid partial of an honest index is early -- the carve-out premise is derived, not assumed. Tied to the code by the system engine (several real Handlers, harness = network + adversary), whose runs are checked admissible (gadm_b, proved sound) and compared node by node.",
+    "level_text": "C04_accept: in every state every partial for a round beyond next_round(clock) is refused and changes nothing. C04_emissions_never_early / C04_step_never_early: for EVERY state and EVERY event list -- ticks of any round (also stale ones consumed after a stall longer than a period), woken catch-up sleepers, restarts, transitions, a chain behind, level with or ahead of the clock -- every partial the node releases is for a round <= the current round of its own clock, with NO premise (after the fix: guard in broadcastNextPartial; before it the statement was refuted in two ways, kept as regression examples C04_fast_peers_witness_repaired / C04_stale_tick_witness_repaired, both also replayed on the real Handler by the node engine). C04_round_le_current_is_timely links rounds to scheduled times (C16). C04_system_no_future_round (Model/Net.v: any number of honest nodes each running the node-local step that is compared with the real Handler, a wire, an adversary owning the network and fewer than a threshold of share indices of every sharing, symbolic unforgeability as admissibility of its events, resharing and sync included, ticks of any round): in EVERY reachable state no beacon of a future round exists anywhere, no honest chain holds one, no valid partial of an honest index is early. C04_net_no_future_round is the older abstract argument over Proofs/NetTime.v. Tied to the code by the node engine (stamps every emission with the node's clock; fast-peer and process-stall scenarios; independent monitor time_of_round(r) <= clock for every emission) and the system engine (several real Handlers, harness = network + adversary; runs checked admissible by gadm_b, proved sound).",
     "level_note": "Kernel-checked, no axioms. Trusts the oracle abstraction of BLS (validated by the correspondence with real signatures over 2 schemes quick / 5 thorough), the harness, and the quiescent-step granularity; transport layers are not modelled.",
 }
 
